@@ -770,7 +770,9 @@ def rule_policy(ctx: Ctx) -> None:
             "put inserts the key somewhere other than the back of the queue", "no queue.append found in put", key="lru-put-back")
     rem, app = _queue_calls(gsc, "_cache_queue", "remove"), _queue_calls(gsc, "_cache_queue", "append")
     same = bool(rem) and bool(app) and norm(rem[0].args[0]) == norm(app[0].args[0]) and (rem[0].lineno, rem[0].col_offset) < (app[0].lineno, app[0].col_offset)
-    ctx.tri("3-policy", get, (rem or app or [get.node])[0], same, not app, "get moves the key to the back (remove + append)",
+    # (an append to a receiver this rule cannot name - a container handed out by a helper / context manager - is not "no append")
+    other_app = [c for f_ in gsc.funcs for c in ast.walk(f_.node) if isinstance(c, ast.Call) and isinstance(c.func, ast.Attribute) and c.func.attr in ("append", "move_to_end", "insert") and c not in app]
+    ctx.tri("3-policy", get, (rem or app or [get.node])[0], same, not app and not other_app, "get moves the key to the back (remove + append)",
             "get never appends the accessed key to the back of the queue: a hit does not refresh recency (FIFO, not LRU)", "remove/append on the queue not in the recognised order", key="lru-get-moves-back")
     # the constructor stores each parameter under its own name: `self.duration_weight = access_weight` (a copy-paste slip) makes
     # the eviction score ignore the weight the caller chose
